@@ -127,6 +127,14 @@ type State struct {
 	nextCalled int
 	depositCalls int
 	depositErrs []string
+	calls       []CallRec
+}
+
+// CallRec records a modular (by-contract) call for $called/$arg/$ret in postconditions.
+type CallRec struct {
+	Name string
+	Args []Value
+	Rets []Value
 }
 
 // HookCall records an invocation of the configured bridge hook.
@@ -138,7 +146,7 @@ type HookCall struct {
 
 func (s *State) Clone() *State {
 	n := &State{pc: append([]string(nil), s.pc...), cells: make(map[int]Value, len(s.cells)), cellTy: s.cellTy,
-		stores: make(map[int]*Store, len(s.stores)), trace: append([]string(nil), s.trace...), recovering: s.recovering, panicVal: s.panicVal, walks: s.walks, gasCharged: append([][2]string(nil), s.gasCharged...), hookCalls: append([]HookCall(nil), s.hookCalls...), hookFailed: s.hookFailed, nextCalled: s.nextCalled, depositCalls: s.depositCalls, depositErrs: append([]string(nil), s.depositErrs...)}
+		stores: make(map[int]*Store, len(s.stores)), trace: append([]string(nil), s.trace...), recovering: s.recovering, panicVal: s.panicVal, walks: s.walks, gasCharged: append([][2]string(nil), s.gasCharged...), hookCalls: append([]HookCall(nil), s.hookCalls...), hookFailed: s.hookFailed, nextCalled: s.nextCalled, depositCalls: s.depositCalls, depositErrs: append([]string(nil), s.depositErrs...), calls: append([]CallRec(nil), s.calls...)}
 	for k, v := range s.cells {
 		n.cells[k] = v
 	}
